@@ -184,6 +184,10 @@ func (w *wf) affine1(v ssa.Value) aff {
 	case *ssa.Extract:
 		if c, ok := x.Tuple.(*ssa.Call); ok {
 			if f := c.Common().StaticCallee(); f != nil {
+				name, idx := canonCall(c)
+				if j, ok := idx[x.Index]; ok {
+					return affAtom(fmt.Sprintf("%s@%s#%d", name, w.callTag(c), j))
+				}
 				return affAtom(fmt.Sprintf("%s@%s#%d", f.Name(), w.callTag(c), x.Index))
 			}
 		}
@@ -245,11 +249,11 @@ func (w *wf) affine1(v ssa.Value) aff {
 
 // callTag distinguishes several calls of one callee by source order.
 func (w *wf) callTag(c *ssa.Call) string {
-	f := c.Common().StaticCallee()
+	name, _ := canonCall(c)
 	n := 0
 	tag := 0
 	instrs(w.f, func(in ssa.Instruction) {
-		if c2, ok := in.(*ssa.Call); ok && c2.Common().StaticCallee() == f {
+		if c2, ok := in.(*ssa.Call); ok && c2.Common().StaticCallee() != nil && canonName(c2) == name {
 			n++
 			if c2 == c {
 				tag = n
@@ -580,4 +584,10 @@ func (w *wf) bodyBasesNoHelpers() []string {
 		}
 	})
 	return uniq(used)
+}
+
+
+func canonName(c *ssa.Call) string {
+	n, _ := canonCall(c)
+	return n
 }
